@@ -15,11 +15,19 @@ META = {
              "non-empty trusted key list; generated key-id guards proved equal to their spec. Full for the BLS combination index "
              "(decode_encode, encode_lt_binom, decode_total_iff, decode_sound). Partial: finalize/validate round-trip and the flags "
              "of full Merge are decided by the Coq monitor on the implementation and by correspondence, not by a general theorem; "
-             "the BLS aggregation tree (sigtree) and BLS proof merging are not modelled.",
+             "Full for the BLS aggregation tree (Model/BlsTree.v, all key-set sizes 1..65535): tree layout of New, invariant over all "
+             "operation sequences (every bit < n and backed by a stored genuine aggregate; SigBits = real leaves covered by set nodes), "
+             "Tree.AddSignature cascade = union with the node's real leaves, MergeSparse total for any input with exact flags and "
+             "verified set union (monotone, idempotent, order irrelevant), AddSignature, no panic for any reachable state and input, "
+             "clone/derive frame, node ids fit 2 bytes iff n <= 32768 (sparse round trip refuted for 32769 keys, replayed on the real "
+             "code: known finding). Partial for the tree: Merge's exact bits/flags and the positive sparse round trip / cover property "
+             "of SparseIndices are decided by the monitor C13Blsm and the correspondence run, not by a theorem.",
     "note": "Trusted: Coq kernel, translator (cross-checked by the correspondence run), ideal-signature convention (DESIGN 3), "
             "bits-and-blooms/bitset, math/big.Binomial, blst, Go harnesses and generators. Clone independence is an aliasing "
             "property decided by the correspondence run and the monitor only. Two defects fixed in the repo worktree (simple "
-            "MergeSparse key-id length, BLS finalized key-id range); reverting either makes the check exit 1 with a replay.",
+            "MergeSparse key-id length, BLS finalized key-id range) and a third for the BLS tree (nil point dereference on undecodable "
+            "signature bytes, repo 5d01a2e); reverting any makes the check exit 1 with a replay. BLS ideal aggregate signatures: "
+            "aggregate unforgeability, no rogue keys, distinct keys.",
     "design_ref": "DESIGN.md 4 (C13)",
 }
 
@@ -493,6 +501,448 @@ def run_bls(c):
             "bls_correspondence_disagreements": len(corr), "bls_spec_failures": len(spec_bad), "bls_validate_panics": len(vfp_panics)}
 
 
+# ----------------------------------------------------------------------------- BLS aggregation tree
+def tree_layout(n):
+    """(W, [(id, lo, hi)]) of the array layout for n keys - closed form used only by the generator."""
+    w = 1
+    while w < n:
+        w *= 2
+    nodes, start, width, nl = [], 0, w, 1
+    while width >= 1:
+        for off in range(width):
+            nodes.append((start + off, off * nl, off * nl + nl))
+        start += width
+        width //= 2
+        nl *= 2
+    return w, nodes
+
+
+class TreeGen:
+    def __init__(self, rng):
+        self.rng = rng
+        self.kinds = {}
+        self.addkinds = {}
+
+    def be16(self, n):
+        return [(n >> 8) & 255, n & 255]
+
+    def pick_n(self):
+        rng = self.rng
+        r = rng.below(100)
+        if r < 20:
+            return 1 + rng.below(8)
+        if r < 50:
+            # last subtree partially padded: just above a power of two, or 3/4 of the way
+            p = rng.choice([2, 4, 8, 16, 32])
+            return min(40, p + 1 + rng.below(max(1, p // 2)))
+        if r < 62:
+            return rng.choice([1, 2, 4, 8, 16, 32])
+        if r < 80:
+            return rng.choice([3, 5, 6, 7, 9, 11, 13, 17, 19, 21, 33, 37])
+        return 1 + rng.below(40)
+
+    def agg(self, m, leaves):
+        return {"k": 0, "m": m, "l": list(leaves)}
+
+    def entry(self, n, msg, corrupt, prefer=None):
+        rng = self.rng
+        w, nodes = tree_layout(n)
+        real = [(i, lo, min(hi, n)) for i, lo, hi in nodes if lo < n]
+        reach = [(i, lo, min(hi, n)) for i, lo, hi in nodes if lo < n < hi]
+        pad = [i for i, lo, hi in nodes if lo >= n]
+        kind = "valid"
+        if corrupt and rng.chance(1, 2):
+            kind = rng.choice(["junk", "bad", "bad", "wrongleaves", "wrongleaves", "wrongmsg", "id0", "id1", "id3", "oor", "oor",
+                               "padnode", "padnode", "inf"])
+        if kind == "padnode" and not pad:
+            kind = "oor"
+        if prefer is not None and rng.chance(1, 2):
+            i, lo, hi = prefer
+        elif reach and rng.chance(1, 3):
+            i, lo, hi = rng.choice(reach)
+            if kind == "valid":
+                kind = "valid-padreach"
+        elif rng.chance(1, 3):
+            i, lo, hi = rng.choice([x for x in real if x[0] < w])     # a leaf
+        else:
+            i, lo, hi = rng.choice(real)
+        idb = self.be16(i)
+        sig = self.agg(msg, range(lo, hi))
+        if kind == "junk":
+            sig = {"k": 1, "v": rng.below(1000)}
+        elif kind == "bad":
+            sig = {"k": 2, "v": rng.below(1000)}
+        elif kind == "wrongleaves":
+            v = rng.below(5)
+            lv = list(range(lo, hi))
+            if v == 0 and len(lv) > 1:
+                lv = lv[:-1]
+            elif v == 1:
+                lv = lv + [lv[-1]]                       # one leaf twice
+            elif v == 2:
+                lv = [(x + 1) % n for x in lv] if n > 1 else [n]
+            elif v == 3:
+                lv = lv + [hi] if hi < n + 3 else lv[1:] + [lv[0]] if len(lv) > 1 else [n]
+            else:
+                lv = list(range(lo, min(hi + (hi - lo), n + 3)))     # the whole padded range / the parent's leaves
+                if lv == list(range(lo, hi)):
+                    lv = [n]
+            lv = sorted(lv)                                # canonical form: the harness adds the points, order is immaterial
+            if lv == list(range(lo, hi)):
+                lv = [n]
+            sig = self.agg(msg, lv)
+        elif kind == "wrongmsg":
+            sig = self.agg(msg + 1, range(lo, hi))
+        elif kind == "inf":
+            sig = self.agg(msg, [])
+        elif kind == "id0":
+            idb = []
+        elif kind == "id1":
+            idb = [i & 255]
+        elif kind == "id3":
+            idb = self.be16(i) + [rng.below(256)]
+        elif kind == "oor":
+            idb = self.be16(rng.choice([2 * w - 1, 2 * w, 2 * w - 1 + rng.below(300), 65535, 256 + i]))
+        elif kind == "padnode":
+            idb = self.be16(rng.choice(pad))
+            if rng.chance(1, 2):
+                sig = self.agg(msg, [])
+            elif rng.chance(1, 2):
+                sig = self.agg(msg, [n - 1])
+        self.kinds[kind] = self.kinds.get(kind, 0) + 1
+        return {"id": idb, "sig": sig}
+
+    def add_op(self, r, n, msg, corrupt):
+        rng = self.rng
+        i = rng.below(n)
+        kind = "good"
+        if corrupt and rng.chance(1, 2):
+            kind = rng.choice(["wrongsigner", "junk", "bad", "wrongmsg", "unknown", "unknown", "zerokey", "aggkey", "inf"])
+        key, sig = [i], self.agg(msg, [i])
+        if kind == "wrongsigner":
+            sig = self.agg(msg, [(i + 1) % n if n > 1 else n])
+        elif kind == "junk":
+            sig = {"k": 1, "v": rng.below(1000)}
+        elif kind == "bad":
+            sig = {"k": 2, "v": rng.below(1000)}
+        elif kind == "wrongmsg":
+            sig = self.agg(msg + 1, [i])
+        elif kind == "inf":
+            sig = self.agg(msg, [])
+        elif kind == "unknown":
+            key = [n + rng.below(3)]
+            sig = self.agg(msg, key)
+        elif kind == "zerokey":
+            key = []
+            sig = rng.choice([self.agg(msg, []), self.agg(msg, [i]), {"k": 2, "v": 0}])
+        elif kind == "aggkey":
+            w, nodes = tree_layout(n)
+            cand = [(lo, min(hi, n)) for x, lo, hi in nodes if lo < n and min(hi, n) - lo >= 2]
+            if cand:
+                lo, hi = rng.choice(cand)
+                key = list(range(lo, hi))
+                sig = self.agg(msg, key)
+        self.addkinds[kind] = self.addkinds.get(kind, 0) + 1
+        return {"op": "add", "r": r, "sig": sig, "key": key}
+
+    def case(self):
+        rng = self.rng
+        n = self.pick_n()
+        w, nodes = tree_layout(n)
+        case = {"ops": [], "_n": n}
+        regs = {}
+
+        def new(r, nn, msg, h):
+            case["ops"].append({"op": "new", "r": r, "n": nn, "msg": msg, "hash": h})
+            if 1 <= nn <= 65535:
+                regs[r] = {"n": nn, "msg": msg, "hash": h}
+
+        new(0, n, 0, 0)
+        new(1, n, 0, 0)
+        new(2, n, 0, 0)
+        new(3, n, 1, 0)
+        if rng.chance(1, 8):
+            v = rng.below(3)
+            if v == 0 and n > 1:
+                new(4, n - 1, 0, 0)          # another key set under the same hash
+            elif v == 1:
+                new(4, n, 0, 1)
+            else:
+                new(4, n + 1, 0, 0)
+        if rng.chance(1, 30):
+            case["ops"].append({"op": "new", "r": 9, "n": rng.choice([0, 65536, 70000]), "msg": 0, "hash": 0})
+        corrupt = rng.chance(1, 2)
+        nops = 10 + rng.below(16)
+        last_ids = {}
+        for _ in range(nops):
+            r = rng.choice(sorted(regs))
+            g = regs[r]
+            nn, msg = g["n"], g["msg"]
+            ww, nd = tree_layout(nn)
+            x = rng.below(100)
+            if x < 22:
+                case["ops"].append(self.add_op(r, nn, msg, corrupt))
+                if rng.chance(1, 5):
+                    case["ops"].append(dict(case["ops"][-1]))           # repetition
+            elif x < 50:
+                ne = rng.choice([0, 1, 1, 2, 2, 3, 4, 6])
+                prefer = last_ids.get(r)
+                ents = [self.entry(nn, msg, corrupt, prefer) for _ in range(ne)]
+                # unusual orders: a parent right after one of its children, a child after its parent
+                if rng.chance(1, 3) and nn > 1:
+                    real = [(i, lo, min(hi, nn)) for i, lo, hi in nd if lo < nn and i >= ww]
+                    if real:
+                        i, lo, hi = rng.choice(real)
+                        left = 2 * (i - ww)
+                        ch = rng.choice([left, left + 1])
+                        chn = [(a, b, min(c_, nn)) for a, b, c_ in nd if a == ch and b < nn]
+                        par = {"id": self.be16(i), "sig": self.agg(msg, range(lo, hi))}
+                        if chn:
+                            a, b, c_ = chn[0]
+                            chd = {"id": self.be16(a), "sig": self.agg(msg, range(b, c_))}
+                            ents += [chd, par] if rng.chance(1, 2) else [par, chd]
+                            self.kinds["parent-child-pair"] = self.kinds.get("parent-child-pair", 0) + 1
+                if ents:
+                    e = ents[-1]
+                    if len(e["id"]) == 2:
+                        i = e["id"][0] * 256 + e["id"][1]
+                        m = [(a, b, min(c_, nn)) for a, b, c_ in nd if a == i and b < nn]
+                        if m:
+                            last_ids[r] = m[0]
+                h = g["hash"] if not (corrupt and rng.chance(1, 12)) else g["hash"] + 1
+                case["ops"].append({"op": "msparse", "r": r, "hash": h, "ents": ents})
+                if rng.chance(1, 4):
+                    case["ops"].append({"op": "msparse", "r": r, "hash": h, "ents": ents})   # idempotence
+                elif rng.chance(1, 6) and len(ents) > 1:
+                    case["ops"].append({"op": "msparse", "r": r, "hash": h, "ents": ents[::-1]})
+            elif x < 58:
+                case["ops"].append({"op": "merge", "r": r, "o": rng.choice(sorted(regs))})
+            elif x < 64:
+                case["ops"].append({"op": "mfrom", "r": r, "o": rng.choice(sorted(regs))})
+            elif x < 72:
+                # sparse round trip into a derived proof
+                to = 5 + rng.below(3)
+                case["ops"] += [{"op": "derive", "r": r, "to": to}, {"op": "mfrom", "r": to, "o": r},
+                                {"op": "sparse", "r": to}, {"op": "bits", "r": r}]
+                regs[to] = dict(g)
+            elif x < 80:
+                to = 5 + rng.below(3)
+                case["ops"].append({"op": rng.choice(["clone", "clone", "derive"]), "r": r, "to": to})
+                regs[to] = dict(g)
+                case["ops"].append(self.add_op(to, nn, msg, False))
+                case["ops"].append({"op": "msparse", "r": to, "hash": g["hash"],
+                                    "ents": [self.entry(nn, msg, False) for _ in range(1 + rng.below(3))]})
+                case["ops"] += [{"op": "bits", "r": r}, {"op": "sparse", "r": r}]
+            elif x < 90:
+                v = rng.below(8)
+                i = rng.below(2 * ww - 1)
+                idb = self.be16(i) if v < 5 else self.be16(2 * ww - 1 + rng.below(3)) if v == 5 else [i & 255] if v == 6 else self.be16(i) + [0]
+                case["ops"].append({"op": "has", "r": r, "id": idb})
+            elif x < 95:
+                case["ops"].append({"op": "sparse", "r": r})
+            else:
+                case["ops"].append({"op": "bits", "r": r})
+        r = rng.choice(sorted(regs))
+        case["ops"] += [{"op": "sparse", "r": r}, {"op": "bits", "r": r}]
+        return case
+
+
+def coq_bsig(s):
+    if s["k"] == 0:
+        return "(SAgg %d %s)" % (s["m"], cl(s["l"]))
+    return "(%s %d)" % ("SJunk" if s["k"] == 1 else "SBad", s["v"])
+
+
+def coq_bents(ents):
+    return "[" + ";".join("(%s,%s)" % (cl(e["id"]), coq_bsig(e["sig"])) for e in ents) + "]"
+
+
+def coq_bop(o):
+    k = o["op"]
+    if k == "new":
+        return "BNew %d %d %d %d" % (o["r"], o["n"], o["msg"], o["hash"])
+    if k == "add":
+        return "BAdd %d %s %s" % (o["r"], coq_bsig(o["sig"]), "(Some %s)" % cl(o["key"]) if o["key"] else "None")
+    if k == "merge":
+        return "BMerge %d %d" % (o["r"], o["o"])
+    if k == "msparse":
+        return "BMergeSparse %d %d %s" % (o["r"], o["hash"], coq_bents(o["ents"]))
+    if k == "mfrom":
+        return "BMergeFrom %d %d" % (o["r"], o["o"])
+    if k == "has":
+        return "BHas %d %s" % (o["r"], cl(o["id"]))
+    if k == "sparse":
+        return "BSparse %d" % o["r"]
+    if k == "clone":
+        return "BClone %d %d" % (o["r"], o["to"])
+    if k == "derive":
+        return "BDerive %d %d" % (o["r"], o["to"])
+    if k == "bits":
+        return "BBits %d" % o["r"]
+    raise ValueError(k)
+
+
+TREE_HEAD = """From Coq Require Import List NArith ZArith String Bool.
+From GV Require Import Base.Ints Model.SimpleProofBase Model.BlsTree Monitors.C13Blsm.
+Import ListNotations. Local Open Scope N_scope.
+Definition cases : list (list bop * list (list N)) := [
+%s
+].
+Fixpoint lobs_eqb (a b : list (list N)) : bool :=
+  match a, b with [], [] => true | x :: a', y :: b' => obs_eqb x y && lobs_eqb a' b' | _, _ => false end.
+Fixpoint first_diff (a b : list (list N)) (i : N) : N :=
+  match a, b with x :: a', y :: b' => if obs_eqb x y then first_diff a' b' (i + 1) else i | _, _ => i end.
+Fixpoint number {A} (l : list A) (i : N) : list (N * A) := match l with [] => [] | x :: t => (i, x) :: number t (i + 1) end.
+(* one model run per case: (correspondence diff, monitor on implementation, monitor on model) *)
+Definition results := Eval vm_compute in
+  map (fun c => let '(i, (ops, obs)) := c in
+         let m := run ops in
+         (i, ((if lobs_eqb m obs then None else Some (first_diff m obs 0, nth (N.to_nat (first_diff m obs 0)) m [])),
+              (c13bls_mon ops obs, c13bls_mon ops m)))) (number cases 0).
+Definition corr_bad := Eval vm_compute in
+  flat_map (fun r => match fst (snd r) with None => [] | Some (j, m) => [(fst r, j, m)] end) results.
+Definition mon_bad := Eval vm_compute in
+  flat_map (fun r => match fst (snd (snd r)) with None => [] | Some j => [(fst r, j)] end) results.
+Definition model_mon_bad := Eval vm_compute in
+  flat_map (fun r => match snd (snd (snd r)) with None => [] | Some j => [(fst r, j)] end) results.
+Print corr_bad. Print mon_bad. Print model_mon_bad.
+"""
+
+BIG_N = 32769   # witness of C13Bls_sparse_roundtrip_refuted: the first key-set size whose aggregate node ids exceed uint16
+
+
+def run_tree(c, proved):
+    """BLS aggregation tree: real gblsminsig.SignatureProof vs Model/BlsTree.v (in coqc) and the monitor C13Blsm."""
+    binary, blog = c.go_build("c13tree")
+    if binary is None:
+        c.fail_obligation("harness-build-tree", blog[-1500:])
+        return {}
+    g = TreeGen(c.rng)
+    rp = json.load(open(c.replay)) if c.replay else {}
+    if "tree_case" in rp:
+        cases = [rp["tree_case"]]
+    else:
+        cases = [g.case() for _ in range(120 if c.tier == "quick" else 2000)]
+    lines = [json.dumps(strip(cs)) for cs in cases]
+    run_big = "tree_case" not in rp
+    if run_big:
+        lines.append(json.dumps({"big": BIG_N}))
+        if c.tier != "quick":
+            lines.append(json.dumps({"big": BIG_N - 1}))
+    rc, out, err = c.run_bin(binary, stdin="\n".join(lines) + "\n")
+    allobs, cur = [], None
+    for line in out.split("\n")[:-1] if out.endswith("\n") else out.split("\n"):
+        if line.startswith("C "):
+            cur = []
+            allobs.append(cur)
+        elif cur is not None:
+            cur.append([int(x) for x in line.split()])
+    if rc != 0 or len(allobs) != len(lines):
+        c.fail_obligation("harness-run-tree", "harness rc=%d returned %d of %d cases: %s" % (rc, len(allobs), len(lines), err[-800:]))
+        return {}
+    bigobs = allobs[len(cases):]
+    allobs = allobs[:len(cases)]
+    corr_bad, mon_bad, model_mon_bad = [], [], []
+    shard = 120
+    for si in range(0, len(cases), shard):
+        body = TREE_HEAD % ";\n".join(
+            "([%s],\n  [%s])" % (";\n   ".join(coq_bop(o) for o in cs["ops"]), ";".join(cl(x) for x in ob))
+            for cs, ob in zip(cases[si:si + shard], allobs[si:si + shard]))
+        ok, cout = c.coq_eval("c13_tree_cases_%d" % (si // shard), body)
+        if not ok:
+            c.fail_obligation("cases-eval-tree", cout[-2000:])
+            break
+        a, b, d = parse_pairs(cout, "corr_bad"), parse_pairs(cout, "mon_bad"), parse_pairs(cout, "model_mon_bad")
+        if a is None or b is None or d is None:
+            c.fail_obligation("cases-eval-tree-parse", cout[-2000:])
+            break
+        corr_bad += [(si + i, j, m) for i, j, m in a]
+        mon_bad += [(si + i, j) for i, j in b]
+        model_mon_bad += [(si + i, j) for i, j in d]
+
+    how = "echo '<tree_case json on one line>' | bin/h_c13tree   (or ./check C13 --replay <this file>)"
+    seen = set()
+    for ci, oi in mon_bad:
+        o = cases[ci]["ops"][oi]
+        ob = allobs[ci][oi] if oi < len(allobs[ci]) else None
+        key = "bls-tree-%s%s" % (o["op"], "-panic" if ob == [999] else "")
+        if key in seen:
+            continue
+        seen.add(key)
+        c.report(key, "real gblsminsig.SignatureProof %s (operation %d of the case, %d keys) violates the verified-set-union "
+                      "specification: observed %s" % (o["op"], oi, cases[ci]["_n"] if "_n" in cases[ci] else -1, ob),
+                 {"tree_case": strip(cases[ci]), "op_index": oi, "op": o, "observed": ob,
+                  "ops_up_to_failure": [coq_bop(x) for x in cases[ci]["ops"][:oi + 1]], "how": how})
+    if corr_bad and not mon_bad:
+        ci, oi, mob = corr_bad[0]
+        c.fail_obligation("correspondence Model/BlsTree.v vs gblsminsig/signatureproof.go + internal/sigtree/tree.go",
+                          "model and implementation differ on %d cases; first: case %d op %d (%s): model %s, implementation %s"
+                          % (len(corr_bad), ci, oi, cases[ci]["ops"][oi]["op"] if oi < len(cases[ci]["ops"]) else "?", mob,
+                             allobs[ci][oi] if oi < len(allobs[ci]) else None),
+                          {"tree_case": strip(cases[ci]), "op_index": oi,
+                           "ops_up_to_failure": [coq_bop(x) for x in cases[ci]["ops"][:oi + 1]], "how": how})
+    if model_mon_bad and not mon_bad:
+        ci, oi = model_mon_bad[0]
+        c.fail_obligation("model_satisfies_monitor (BLS tree, sampled)", "the model's own run is rejected by the monitor: case %d op %d" % (ci, oi),
+                          {"tree_case": strip(cases[ci]), "op_index": oi})
+    if not proved and not mon_bad:
+        b = getattr(c, "broken", {"file": "?", "log": ""})
+        c.fail_obligation("Properties/C13Bls.v (%s)" % b["file"], b["log"], {"searched_cases": len(cases)})
+
+    # witness of C13Bls_sparse_roundtrip_refuted replayed on the real code: BIG_N keys, leaves 0 and 1 sign
+    big_cov = {}
+    if run_big and bigobs:
+        ob = bigobs[0][0] if bigobs[0] else [999]
+        want = [65536, -1, 1, 1, 0, 0, 1]    # id of node (0,1), all valid, increased, bits {0,1}
+        big_cov["big_roundtrip_n"] = BIG_N
+        big_cov["big_roundtrip_observed"] = ob
+        if ob != want:
+            c.report("bls-sparse-keyid-overflow",
+                     "sparse round trip loses signatures for %d keys: AsSparse labels the aggregate of leaves 0,1 (node 65536) with the "
+                     "2-byte key id %s and Derive().MergeSparse(AsSparse) reports %s (expected ids [65536], flags 1 1 0, bits 0 1)"
+                     % (BIG_N, ob[:ob.index(-1)] if -1 in ob else ob, ob[ob.index(-1) + 1:] if -1 in ob else ob),
+                     {"input": {"big": BIG_N}, "observed": ob, "how": "echo '{\"big\": %d}' | bin/h_c13tree" % BIG_N})
+        if len(bigobs) > 1:
+            ob2 = bigobs[1][0] if bigobs[1] else [999]
+            big_cov["big_roundtrip_control_32768"] = ob2
+            if ob2 != [32768, -1, 1, 1, 0, 0, 1]:
+                c.report("bls-sparse-roundtrip-32768", "sparse round trip fails for 32768 keys: %s" % ob2,
+                         {"input": {"big": BIG_N - 1}, "observed": ob2})
+
+    opcount, sizes, panics = {}, {}, 0
+    nontrivial = set()
+    padded = 0
+    for cs, obs in zip(cases, allobs):
+        for o in cs["ops"]:
+            opcount[o["op"]] = opcount.get(o["op"], 0) + 1
+        if "_n" in cs:
+            sizes[cs["_n"]] = sizes.get(cs["_n"], 0) + 1
+            if cs["_n"] & (cs["_n"] - 1):
+                padded += 1
+        panics += sum(1 for ob in obs if ob == [999])
+        merges = [ob for o, ob in zip(cs["ops"], obs) if o["op"] in ("merge", "msparse", "mfrom") and len(ob) >= 3]
+        if any(m[1] == 1 for m in merges) and any(m[0] == 0 or m[1] == 0 for m in merges):
+            nontrivial.add(json.dumps(strip(cs), sort_keys=True))
+    if cases and len(c.samples) < 4:
+        c.samples.append({"tree_case": strip(cases[0]), "observations": allobs[0] if allobs else None})
+    cov = {
+        "tree_cases": len(cases),
+        "tree_evaluations": sum(len(o) for o in allobs),
+        "tree_distinct_nontrivial": len(nontrivial),
+        "tree_traces_validated_against_impl": len(allobs),
+        "tree_op_distribution": opcount,
+        "tree_sparse_entry_kinds": g.kinds,
+        "tree_add_kinds": g.addkinds,
+        "tree_key_set_sizes": {str(k): v for k, v in sorted(sizes.items())},
+        "tree_cases_with_padding": padded,
+        "tree_constructor_panics_observed": panics,
+        "tree_correspondence_disagreements": len(corr_bad),
+        "tree_monitor_failures_on_impl": len(mon_bad),
+    }
+    cov.update(big_cov)
+    return cov
+
+
 def main(argv):
     c = vcheck.Check("C13", argv)
     c.trusted += [
@@ -503,10 +953,15 @@ def main(argv):
         "bits-and-blooms/bitset v1.20 (Set/Test/Count/IsStrictSuperSet/CopyFull) modelled as N bit masks",
         "math/big.Binomial = binomial coefficient (Model/CombIndex.v computes Pascal rows); blst group law and pairing check (not modelled)",
         "Go harness /verif/harness/c13bls using the verif hook gcrypto/gblsminsig/verif_hooks.go (wrappers only)",
+        "Go harness /verif/harness/c13tree (real gblsminsig.SignatureProof; genuine aggregates = blst sums of the leaves' signatures; "
+        "junk = valid point over another message; undecodable = wrong-length / off-curve bytes) and the closed-form node ranges it "
+        "uses to verify AsSparse output independently",
     ]
     c.assumes += [
         "ideal signatures (DESIGN 3): a signature value verifies for exactly one (key, message); ed25519 realises Good k m 0",
         "public key bytes are injective in the key identity; the trusted key list handed to ValidateFinalizedProof is non-empty",
+        "BLS tree: ideal aggregate signatures - Verify(aggregate key of leaf set S, sig) iff sig is the aggregate of the genuine "
+        "signatures of exactly S over the proof's message (aggregate unforgeability, no rogue-key attack, distinct keys)",
     ]
     c.grep_gate()
 
@@ -536,6 +991,10 @@ def main(argv):
         allobs, corr_bad, mon_bad, model_mon_bad = run_simple(c, binary, cases)
 
     bls_cov = run_bls(c) if not c.replay or "case" not in json.load(open(c.replay)) else {}
+    tree_cov = {}
+    if not c.replay or "case" not in json.load(open(c.replay)):
+        proved_tree = c.prove("C13Bls")
+        tree_cov = run_tree(c, proved_tree)
 
     # ------------------------------------------------------------------ verdict
     seen_keys = set()
@@ -596,4 +1055,5 @@ def main(argv):
         "monitor_failures_on_impl": len(mon_bad),
     })
     c.coverage.update(bls_cov)
+    c.coverage.update(tree_cov)
     c.finish()
